@@ -201,13 +201,16 @@ class RungeKuttaIntegrator(TableauIntegrator, abc.ABC):
             if redo_step:
                 for _ in range(self.solver_dict.get("num_step_retries", 64)):
                     self.solver_dict['redo_count'] += 1
+                    # the retried step is the smaller of the two in magnitude (timesteps are negative when integrating backwards)
+                    if D.ar_numpy.abs(timestep) > D.ar_numpy.abs(current_timestep):
+                        timestep = current_timestep
                     try:
                         timestep, (self.dTime, self.dState) = self.step(rhs, initial_time, initial_state, constants,
-                                                                             D.ar_numpy.minimum(timestep, current_timestep))
+                                                                             timestep)
                     except (*D.linear_algebra_exceptions, ValueError):
                         self._requires_high_precision = True
                         timestep, (self.dTime, self.dState) = self.step(rhs, initial_time, initial_state, constants,
-                                                                             D.ar_numpy.minimum(timestep, current_timestep))
+                                                                             timestep)
                     self.solver_dict['diff'] = timestep * self.get_error_estimate()
                     self.solver_dict['timestep'] = self.dTime
                     self.solver_dict['dState'] = self.dState
